@@ -10,7 +10,8 @@ Streams
            raw mode returns the same values as plain lists;
   lay-m    the model's reader (`parseFile2`, on the bytes and on the universal-newline text) agrees
            with the real reader field by field, also on the symbol tables; when `docOK2 d &&
-           layoutOK d lay` it returns `canon d` (instance of the file-level statement, executed);
+           layoutOK2 d lay` it returns `canon d` (instance of the PROVED file-level theorem
+           `parseFile_layout`, executed on every case);
   names    directed documents whose struct names contain one another / equal a column name, an
            enum type or a C type word elsewhere (D16, D17), through the same differential;
   exh      (thorough) one 2-table, 2-row document x all 2^10 on/off combinations of the ten
@@ -35,7 +36,11 @@ P = 'PydlVerif.C02.'
 THEOREMS = [P + t for t in (
     'getToken_quote', 'getToken_quote_last', 'trailingComment_strip', 'trailingComment_odd_counterexample',
     'parseRow_layout', 'tdNameOf_typedef', 'struct_name_lookup', 'struct_name_lookup_typing', 'old_lookup_counterexample',
-    'raw_same_values', 'parseFileS_selectDef')]
+    'raw_same_values', 'parseFileS_selectDef',
+    # file level (extension round)
+    'joinCont_layout', 'typedef_block_layout', 'typeSearch_layout', 'columnsOf_layout', 'typing_layout', 'char_unsized_layout',
+    'front_layout', 'lineStep_layout_row', 'lineStep_layout_pair', 'loop_layout', 'finishTables_layout', 'parseFile2_eq',
+    'parseFile_layout')]
 FEATS = ['lead', 'seps', 'quote', 'legacy', 'case', 'tcomment', 'filler', 'crlf', 'cont', 'interleave']
 RULE = ('pairs (document, layout): documents of 0-3 tables x 0-5 rows x 1-6 columns (short/int/long/float/double/char[n]/char[], '
         '1-D arrays, enum columns), 0-4 keyword pairs, struct names biased to clashes (substrings of each other, equal to a column, '
@@ -61,20 +66,27 @@ ASSUMPTIONS = [
     'struct names are identifiers, distinct ignoring case (otherwise arbitrary: substrings of each other, equal to column / enum / type names)',
     'char name[] is admissible when the table has a row; the column then has the width of its longest value',
 ]
-LEVEL_TEXT = ('Lean 4 theorems over an executable model of the yanny reader and of a layout relation Renders(document, layout): every quoting '
-              'style legal for a token reads back as that token followed by the rest of the line for every separator (getToken_quote, '
-              'getToken_quote_last); a trailing comment is stripped whatever the line contains (trailingComment_strip; the documented odd-quote '
-              'failure is a proved counter-example); the cells of a data line in any per-line layout - styles, blank/tab runs, continuation-split '
-              'separators after joining, array padding, trailing blanks - read back as the row for every schema (parseRow_layout); the typedef of a '
-              'table is selected by its own name whatever other names and texts contain (struct_name_lookup, struct_name_lookup_typing, '
-              'tdNameOf_typedef - proved for the post-fix rule; the pre-fix rule is refuted on the D16/D17 inputs by old_lookup_counterexample); raw '
-              'mode returns the values the record arrays are cast from (raw_same_values). The model is tied to the code on every run by a differential '
-              'over generated (document, layout) pairs read through three access modes and raw mode, with an independent cell-by-cell oracle, incl. '
-              'the bounded-exhaustive family of all 2^10 feature combinations on one document (thorough).')
-LEVEL_NOTE = ('Partial: the file-level statement parseFile(Renders d lay) = d is stated in Props/C02.lean and executed on every generated case '
-              '(model reader = canon d whenever docOK2 && layoutOK), but proved only up to the line level: continuation joining, typedef extraction from '
-              'laid-out definition blocks, the line loop over interleaved lines (comment stripping + dispatch), char[] sizing and the record-array '
-              'stage are modelled and compared, not proved. Floats by C01\'s hypothesis h1.')
+LEVEL_TEXT = ('Lean 4 theorems over an executable model of the yanny reader and of a layout relation Renders(document, layout), now up to the FILE '
+              'level: parseFile_layout - every document of the domain (several tables, enum and struct definitions, keyword pairs, struct names '
+              'arbitrary distinct identifiers) written in ANY admissible layout (comment lines, trailing comments, blank lines, leading blanks, '
+              'blank/tab runs, CRLF, backslash continuation inside any separator, bare/"quoted"/{braced} tokens, [n]/<n>/[] brackets, any letter case of '
+              'the struct name, white space and comments inside definitions, definitions anywhere in the file, rows of different tables interleaved) '
+              'reads back as the canonical document: tables, column types, row order per table, cells, pairs in order. It is the composition of '
+              'separately stated pieces: joinCont_layout (continuation joining), typedef_block_layout / front_layout (typedef extraction on laid-out '
+              'blocks, symbol table, residual text), typeSearch_layout / columnsOf_layout / typing_layout / char_unsized_layout (column typing from a '
+              'laid-out struct text, char name[] sized by the longest value), lineStep_layout_row / lineStep_layout_pair (the line step on a whole '
+              'laid-out line, on top of getToken_quote, trailingComment_strip, parseRow_layout), loop_layout (rows of each table arrive in that '
+              'table\'s order under any interleaving), finishTables_layout (record arrays). Also: the typedef of a table is selected by its own name '
+              'whatever other names and texts contain (struct_name_lookup*, pre-fix rule refuted by old_lookup_counterexample); raw mode returns '
+              'the values the record arrays are cast from (raw_same_values). The model is tied to the code on every run by a differential over '
+              'generated (document, layout) pairs read through three access modes and raw mode, with an independent cell-by-cell oracle, incl. '
+              'the bounded-exhaustive family of all 2^10 feature combinations on one document (thorough); the theorem\'s instance is also executed on '
+              'every case (model reader = canon d whenever docOK2 && layoutOK2).')
+LEVEL_NOTE = ('parseFile_layout is proved for the text as written (what a binary file object / the bytes give); the same statement for the '
+              'universal-newline text of text-mode open() (univNl) is executed on every case (stream lay-m, txt) but not proved. Domain layoutOK2 = '
+              'layoutOK + "inside a struct definition every declaration after the first is preceded by a newline" (documented assumption: type() '
+              'matches [...] greedily up to the last ]; of the line). The regex scanners of the model are hand-written equivalents of the re '
+              'expressions (trusted, compared on every run). Floats by C01\'s hypothesis h1.')
 
 DB_RE = c01.DB_RE
 WS = ' \t\n\r\x0b\x0c\x1c\x1d\x1e\x1f\x85\xa0'
@@ -615,12 +627,12 @@ def run_cases(ctx, cases, stream='lay', shrink=True):
             continue
         text = m['text']
         case['text'] = text
-        if not m['ok']:
+        if not m.get('ok2', m['ok']):
             logical = m.get('logical') or text
             if any(DB_RE.search(l) for l in logical.split('\n')) or not in_domain(doc):
                 ctx.count(stream + ':regenerated:D4-pattern')
                 continue
-            ctx.disagree(stream + '-domain', case, 'generator: in domain', 'model: docOK2 && layoutOK = false')
+            ctx.disagree(stream + '-domain', case, 'generator: in domain', 'model: docOK2 && layoutOK2 = false (layoutOK = %s)' % m['ok'])
             continue
         non = sum(1 for f in FEATS if mask.get(f))
         ctx.seen({'doc': lean_doc(doc), 'lay': c['lay']}, bool(doc['tables'] or doc['hdr']) and non > 0)
@@ -696,7 +708,7 @@ def _count(ctx, stream, doc, mask, text):
 # ---------------------------------------------------------------- shrinking
 def _fails(ctx, doc, lay, sig):
     m = c01.drv([{'p': 'C02', 'op': 'lay', 'doc': lean_doc(doc), 'lay': lay}])[0]
-    if 'driver_error' in m or m.get('text') is None or not m['ok']:
+    if 'driver_error' in m or m.get('text') is None or not m.get('ok2', m['ok']):
         return None
     v = judge(doc, real_read(ctx, m['text']))
     return m['text'] if (v is not None and v[0] == sig) else None
